@@ -7,13 +7,25 @@ EXPLANATION = ('Value-flow normal form of <MHMarkovChain as MarkovChain>::step (
                'candidate from one Proposal::sample on the pre-step state, acceptance condition '
                'p(y)+q(y->x)-p(x)-q(x->y)-ln(u) > 0 (strict), u one StandardUniform draw from the chain generator, '
                'single conditional store of y into the state, returned reference is the state.')
-FLOORS = {'obligations': 7}   # counted on the reference tree; fewer instantiated obligations is reported, never passed silently
+FLOORS = {'obligations': 19}   # counted on the reference tree; fewer instantiated obligations is reported, never passed silently
 TECHNIQUE = 'value-flow normal form vs specification table'
 
 A = '<MHMarkovChain as MarkovChain>::step'
 
 
+def frame_rules(ctx):
+    from .. import frame
+    STEP, NEW, SEED = '<metropolis_hastings::MHMarkovChain<T, F, D, Q> as core::MarkovChain<T>>::step', 'metropolis_hastings::MHMarkovChain::new', 'metropolis_hastings::MetropolisHastings::seed'
+    frame.check_frame(ctx, 'C01', 'metropolis_hastings::MHMarkovChain', {'target': {NEW}, 'proposal': {STEP, NEW, SEED}, 'current_state': {STEP, NEW}, 'rng': {STEP, NEW, SEED}, 'phantom': {NEW}},
+                      why="the chain's state, target, proposal and generator change only through the anchored step (and the constructor / seeding API): any other writer is a second, unspecified transition")
+    SNEW, ACC = 'metropolis_hastings::MetropolisHastings::new', '<metropolis_hastings::MetropolisHastings<S, T, D, Q> as core::HasChains<S>>::chains_mut'
+    frame.check_frame(ctx, 'C01', 'metropolis_hastings::MetropolisHastings', {'target': {SNEW}, 'proposal': {SNEW}, 'chains': {SNEW, ACC, SEED}},
+                      why='the runner hands out its chains (accessor) and re-seeds them; nothing else replaces or edits them')
+    frame.shadowing(ctx, 'C01', ['metropolis_hastings::MHMarkovChain', 'metropolis_hastings::MetropolisHastings'])
+
+
 def run(ctx):
+    frame_rules(ctx)
     b = ctx.anchor(A, name='step', trait='core::MarkovChain', self_head='metropolis_hastings::MHMarkovChain')
     if b is None:
         for o in ('C01.sample', 'C01.ratio', 'C01.draw', 'C01.store', 'C01.ret'):
